@@ -226,6 +226,61 @@ fn record(a: &Args) {
     out.finish();
 }
 
+/// longlife out=<json> seed=N cycles=C : ONE tracker lives through C cycles of (one or two updates, reset); at check
+/// points (dense around 2^8 and 2^16 cycles and their multiples, sparse elsewhere) it must look like a new tracker right
+/// after the reset (every slot and the maximum at the type maximum, every finite value accepted) and, fed a fixed
+/// sequence of updates, report the slots and the maximum a new tracker reports.
+fn longlife(a: &Args) {
+    silence_panics();
+    let seed = a.u64_or("seed", 1);
+    let cycles = a.u64_or("cycles", 140_000);
+    let mut cases: Vec<Value> = Vec::new();
+    for m in [1usize, 2, 3, 4, 7, 16] {
+        let mut rng = rng_from(seed, 15_700 + m as u64);
+        let r = catch(|| {
+            let mut old = VerifMaxTracker::new(m);
+            let mut bad: Vec<Value> = Vec::new();
+            let mut checks = 0u64;
+            for c in 1..=cycles {
+                // only some of the slots are written in a cycle (the others keep whatever an earlier cycle left)
+                let k = (c as usize) % m;
+                old.update(k, rng.random_range(0.0..100.0));
+                if c % 5 == 0 {
+                    old.update((k + 1) % m, rng.random_range(0.0..100.0));
+                }
+                old.reset();
+                let near = |x: u64| (c % x) < 3 || (c % x) > x - 3;
+                if (near(256) && c < 2000) || near(65536) || c % 9973 == 0 {
+                    checks += 1;
+                    let (leaves, mx) = observe(&old, m);
+                    let fresh_like = leaves.iter().all(|v| *v == f64::MAX) && mx == f64::MAX && old.is_update_possible(1.0e300);
+                    let ups: Vec<(usize, f64)> = (0..(2 * m)).map(|_| (rng.random_range(0..m), rng.random_range(0.0..100.0))).collect();
+                    let mut fresh = VerifMaxTracker::new(m);
+                    let mut same = true;
+                    for (k, v) in &ups {
+                        old.update(*k, *v);
+                        fresh.update(*k, *v);
+                        let (l1, m1) = observe(&old, m);
+                        let (l2, m2) = observe(&fresh, m);
+                        same = same && l1 == l2 && m1 == m2;
+                    }
+                    if (!fresh_like || !same) && bad.len() < 5 {
+                        bad.push(json!({"resets_before": c, "looks_new_after_reset": fresh_like, "same_as_new_under_updates": same,
+                                        "leaves_after_reset": leaves.iter().map(|v| format!("{:e}", v)).collect::<Vec<_>>(), "max_after_reset": format!("{:e}", mx)}));
+                    }
+                    old.reset();
+                }
+            }
+            (bad, checks)
+        });
+        match r {
+            Ok((bad, checks)) => cases.push(json!({"m": m, "cycles": cycles, "checks": checks, "bad": bad})),
+            Err(msg) => cases.push(json!({"m": m, "cycles": cycles, "checks": 0, "bad": [], "panic": msg})),
+        }
+    }
+    write_json(&a.str("out"), &json!({"cases": cases}));
+}
+
 fn main() {
     let argv: Vec<String> = std::env::args().collect();
     if argv.len() < 2 {
@@ -235,6 +290,7 @@ fn main() {
     match argv[1].as_str() {
         "replay" => replay(&a),
         "record" => record(&a),
+        "longlife" => longlife(&a),
         other => tool_error(&format!("unknown subcommand {}", other)),
     }
 }
